@@ -192,3 +192,25 @@ class Timer:
 
     def s(self):
         return round(time.time() - self.t0, 2)
+
+
+class Timeout(Exception):
+    pass
+
+
+def with_timeout(fn, seconds=3.0):
+    """Run fn() in the main thread under an interval timer; raises Timeout.  (The vendored parser
+    needs minutes on some short inputs - e.g. nested $( or '>#\n}`|>r\n]|' - so harnesses bound
+    every in-process parse.)"""
+    import signal
+
+    def handler(signum, frame):
+        raise Timeout()
+
+    old = signal.signal(signal.SIGALRM, handler)
+    signal.setitimer(signal.ITIMER_REAL, seconds)
+    try:
+        return fn()
+    finally:
+        signal.setitimer(signal.ITIMER_REAL, 0)
+        signal.signal(signal.SIGALRM, old)
